@@ -170,8 +170,8 @@ int snprintf(char *s, size_t n, const char *fmt, ...) {
     l += dec((unsigned)a, tmp + l); tmp[l++] = '-'; l += dec((unsigned)b, tmp + l); tmp[l++] = ',';
     if(n > 0) {
         __CPROVER_assert(__CPROVER_w_ok(s, n), "ENV/snprintf: destination writable for the stated size");
-        if(__CPROVER_same_object(s, ip_ptr))
-            __CPROVER_assert(__CPROVER_POINTER_OFFSET(s) + n <= ip_size, "C10/range-string-snprintf-stays-inside-the-buffer-it-was-given");
+        if(pa_is_managed(s))
+            __CPROVER_assert(__CPROVER_POINTER_OFFSET(s) + n <= pa_size_of(s), "C10/range-string-snprintf-stays-inside-the-buffer-it-was-given");
         for(int i = 0; i < 12; i++) if(i < l && (size_t)i + 1 < n) s[i] = tmp[i];
         s[(size_t)l < n - 1 ? (size_t)l : n - 1] = 0;
     }
@@ -214,12 +214,12 @@ void h10c(void) {
     /* compare as C strings: rendered text is exactly the comma separated start-end list */
     int same = 1, ended = 0;
     for(int i = 0; i < NR * 12 + 2; i++) if(!ended) {
-        OBLIGE(__CPROVER_r_ok(out + i, 1) && (!__CPROVER_same_object(out, ip_ptr) || (size_t)i < ip_size), "C10/range-string-terminated-inside-its-allocation");
+        OBLIGE(__CPROVER_r_ok(out + i, 1) && (!pa_is_managed(out) || (size_t)i < pa_size_of(out)), "C10/range-string-terminated-inside-its-allocation");
         if(out[i] != ref[i]) same = 0;
         if(out[i] == 0 || ref[i] == 0) ended = 1;
     }
     OBLIGE(same, "C10/range-string-is-comma-separated-start-end-list");
-    OBLIGE(!ip_over, "C10/range-string-buffer-within-model-capacity");
+    OBLIGE(!pa_over, "C10/range-string-buffer-within-model-capacity");
     if(nr == 0) WITNESS("h10c-empty"); else if(nr == NR) WITNESS("h10c-full"); else WITNESS("h10c-some");
 }
 #endif
